@@ -99,17 +99,59 @@ def run(ck):
                         continue
                     if cfg is None:
                         cfg = CFG(fn)
-                        facts = guard_facts(cfg)
-                    # arithmetic uses of var
+                    # may-analysis: can `var` still hold the raw sentinel -1 at a node?
+                    from sa.facts import atom as _atom
+
+                    def _excl(fs):
+                        for ft in fs:
+                            if ft[0] == "cmp":
+                                a, op, b = ft[1], ft[2], ft[3]
+                                if a == var and ((op == "!=" and b == "-1") or (op == ">=" and b == "0") or (op == ">" and b == "-1")):
+                                    return True
+                                if b == var and ((op == "!=" and a == "-1") or (op == "<=" and a == "0") or (op == "<" and a == "-1")):
+                                    return True
+                        return False
+
+                    def _flow(nd, st, par=par):
+                        a = nd.ast
+                        if nd.kind == "stmt" and isinstance(a, (ast.Assign, ast.AugAssign)):
+                            tg = a.targets[0] if isinstance(a, ast.Assign) else a.target
+                            if isinstance(tg, ast.Name) and tg.id == var:
+                                return a is par
+                        return st
+
+                    def _edge(nd, label, st):
+                        if nd.kind == "test" and label in (True, False) and st and _excl(_atom(nd.ast, label)):
+                            return False
+                        return st
+                    IN, _o = cfg.forward(False, _flow, lambda x, y: x or y, _edge)
+                    facts = dict((k, (frozenset() if v else frozenset([("cmp", var, "!=", "-1")]))) for k, v in IN.items())
+                    # arithmetic uses of var (directly, or scaled by a constant) with a non-constant partner
+                    from sa.facts import atom
+
+                    def scaled(e):
+                        if isinstance(e, ast.Name) and e.id == var:
+                            return True
+                        if isinstance(e, ast.BinOp) and isinstance(e.op, ast.Mult):
+                            return (scaled(e.left) and isinstance(e.right, ast.Constant)) or (scaled(e.right) and isinstance(e.left, ast.Constant))
+                        return False
                     for nd in cfg.nodes:
                         for e in node_exprs(nd):
                             for x in walk_local(e):
-                                if isinstance(x, ast.BinOp) and isinstance(x.op, (ast.Add, ast.Sub, ast.Mult)) and \
-                                        any(isinstance(s, ast.Name) and s.id == var for s in (x.left, x.right)):
-                                    other = x.right if (isinstance(x.left, ast.Name) and x.left.id == var) else x.left
+                                if isinstance(x, ast.BinOp) and isinstance(x.op, (ast.Add, ast.Sub)) and (scaled(x.left) or scaled(x.right)):
+                                    other = x.right if scaled(x.left) else x.left
                                     if isinstance(other, ast.Constant):
                                         continue   # i + 1 style slicing arithmetic: -1 + 1 == 0 is the idiom's point
-                                    f = facts.get(nd.id, frozenset())
+                                    f = set(facts.get(nd.id, frozenset()))
+                                    # conditional expressions guard their arms
+                                    ch, par = x, getattr(x, "_parent", None)
+                                    while par is not None and not isinstance(par, ast.stmt):
+                                        if isinstance(par, ast.IfExp):
+                                            if ch is par.body:
+                                                f |= set(atom(par.test, True))
+                                            elif ch is par.orelse:
+                                                f |= set(atom(par.test, False))
+                                        ch, par = par, getattr(par, "_parent", None)
                                     tested = any(ft[0] == "cmp" and var in (ft[1], ft[3]) and ("-1" in (ft[1], ft[3]) or "0" in (ft[1], ft[3]))
                                                  for ft in f)
                                     ck.ob("R2", "%s:%s=%s" % (q, var, norm(c)[:30]), tested, m.where(x),
